@@ -70,6 +70,14 @@ func canonAnswer(canon, op, ans string, env *gtext.Env) string {
 			return ans + " !not-a-complete-encoding"
 		}
 		return "ok " + refcodec.Canon(v).Text()
+	case canon == "fieldtype":
+		// impl: ok <tag hex> <type text>; model: ok <type text>
+		if op != "" && strings.HasPrefix(op, "fieldtype ") {
+			if parts := strings.SplitN(body, " ", 2); len(parts) == 2 {
+				return "ok " + parts[1]
+			}
+		}
+		return ans
 	case canon == "zapjson":
 		raw, err := unhex(body)
 		if err != nil {
